@@ -83,7 +83,7 @@ Record GInv (res : Z) (run : option (nat * nat)) (w : world) (m : mstate) : Prop
   g_count : m_count m = w_nt w;
   g_ids : forall h, In h (handles w) -> (hid h < w_next w)%nat;
   g_nodup : NoDup (map hid (handles w));
-  g_ver : forall k, m_ver m k = w_bind w k;
+  g_ver : forall k, m_ver m k = eff w k;
   g_ready : forall h, In h (w_ready w) -> hwhen h - res < w_now w;
   g_tgt : forall h i, In h (handles w) -> htgt h = TRun i -> (i < w_nt w)%nat;
   g_owner : forall h i, In h (handles w) -> htgt h = TRun i -> w_canc w (hid h) = false ->
@@ -147,7 +147,17 @@ Proof.
   - exists rid. assumption.
 Qed.
 
-Ltac wsimpl := unfold handles, set_delegate, set_tm, cancel_handle, set_now, set_ready, set_sched, set_scr, redefine, add_timer in *; cbn [w_now w_next w_sched w_ready w_canc w_nt w_tm w_scr w_bind w_nver m_clock m_cur m_st m_ver m_count t_interval t_start t_delegate t_n t_fn0 hid hwhen htgt] in *.
+Ltac wsimpl := unfold handles, set_delegate, set_tm, cancel_handle, set_now, set_ready, set_sched, set_scr, set_pool, redefine, undefine, add_timer in *; cbn [w_now w_next w_sched w_ready w_canc w_nt w_tm w_scr w_bind w_nver w_pool m_clock m_cur m_st m_ver m_count t_interval t_start t_delegate t_n t_fn0 hid hwhen htgt] in *.
+
+(* the version a wrapper call runs is not affected by changes that keep bindings, timer count and captured functions *)
+Ltac ver_tac Hver :=
+  let k := fresh "k" in
+  intros k; rewrite Hver; unfold eff, fallback; cbn [w_bind w_nt w_tm];
+  destruct (w_bind _ k); [reflexivity|]; destruct (k <? _)%nat; [|reflexivity];
+  unfold upd; match goal with
+  | |- context [Nat.eqb k ?j] => let E := fresh "E" in destruct (Nat.eqb k j) eqn:E; [apply Nat.eqb_eq in E; subst; reflexivity | reflexivity]
+  | _ => reflexivity
+  end.
 
 Lemma upd_true_false (f : nat -> bool) id x : upd f id true x = false -> x <> id /\ f x = false.
 Proof.
@@ -170,6 +180,7 @@ Proof.
     - assert (h = h') by (eapply nodup_map_inj; eauto; congruence). subst h'. congruence.
     - destruct (Hrid j id Hr) as (_ & _ & Hno & _). exfalso. eapply Hno; eauto. }
   constructor; wsimpl; try assumption.
+  - ver_tac Hver.
   - intros h i Hin Ht Hc. apply upd_true_false in Hc. destruct Hc as [Hne Hc].
     destruct (Nat.eq_dec i j) as [->|Hij].
     + pose proof (Hown h j Hin Ht Hc) as Ho. congruence.
@@ -234,10 +245,23 @@ Lemma ginv_redefine res run w m k :
   GInv res run (redefine w k) (mk_mstate (m_clock m) (m_cur m) (m_st m) (upd (m_ver m) k (w_nver w)) (m_count m)).
 Proof.
   intros H. ginv H. constructor; wsimpl; try assumption.
-  intros k'. unfold upd. destruct (Nat.eqb k' k); auto.
+  intros k'. specialize (Hver k'). unfold eff, fallback in *. cbn [w_bind w_nt w_tm] in *.
+  unfold upd. destruct (Nat.eqb k' k); auto.
+Qed.
+
+Lemma ginv_undefine res run w m k :
+  GInv res run w m ->
+  GInv res run (undefine w k) (mk_mstate (m_clock m) (m_cur m) (m_st m) (upd (m_ver m) k (fallback w k)) (m_count m)).
+Proof.
+  intros H. ginv H. constructor; wsimpl; try assumption.
+  intros k'. specialize (Hver k'). unfold eff, fallback in *. cbn [w_bind w_nt w_tm] in *.
+  unfold upd. destruct (Nat.eqb k' k) eqn:E; auto. apply Nat.eqb_eq in E. subst k'. reflexivity.
 Qed.
 
 Lemma ginv_scr res run w m s : GInv res run w m -> GInv res run (set_scr w s) m.
+Proof. intros H. ginv H. constructor; wsimpl; assumption. Qed.
+
+Lemma ginv_pool res run w m p : GInv res run w m -> GInv res run (set_pool w p) m.
 Proof. intros H. ginv H. constructor; wsimpl; assumption. Qed.
 
 Lemma insert_h_perm b h l : Permutation (insert_h b h l) (h :: l).
@@ -269,6 +293,7 @@ Proof.
   intros H. ginv H.
   destruct (Hrid i rid eq_refl) as (R1 & R2 & R3 & R4).
   constructor; wsimpl; try assumption.
+  - ver_tac Hver.
   - intros h i0 Hin Ht Hc. destruct (Nat.eq_dec i0 i) as [->|Hne].
     + rewrite (R4 h Hin Ht) in Hc. discriminate.
     + rewrite upd_other by assumption. eauto.
@@ -280,8 +305,10 @@ Proof.
   - intros i0 Hi. rewrite upd_other by lia. eauto.
 Qed.
 
-(* a new loop handle hn for timer i becomes its delegate (first arming in _call_periodic, re-arm in run) *)
-Lemma ginv_arm res run0 w m sched' ready' i t nt' hn s iv d :
+(* a new loop handle hn for timer i becomes its delegate (first arming in _call_periodic, re-arm in run).
+   run' = None when this ends the callback of timer i itself (or none was running); run' = run0 when it
+   happens inside the callback of another timer (a callback that calls .timer) *)
+Lemma ginv_arm res run0 run' w m sched' ready' i t nt' hn s iv d :
   0 < res ->
   GInv res run0 w m ->
   Permutation (sched' ++ ready') (hn :: handles w) ->
@@ -292,12 +319,15 @@ Lemma ginv_arm res run0 w m sched' ready' i t nt' hn s iv d :
   (0 < iv -> d = s + t_n t * iv) ->
   (i < nt')%nat -> (w_nt w <= nt')%nat ->
   (forall h, In h (handles w) -> htgt h = TRun i -> w_canc w (hid h) = true) ->
-  (run0 = None \/ exists rid, run0 = Some (i, rid)) ->
-  GInv res None
-    (mk_world (w_now w) (S (w_next w)) sched' ready' (w_canc w) nt' (upd (w_tm w) i t) (w_scr w) (w_bind w) (w_nver w))
-    (mk_mstate (m_clock m) None (upd (m_st m) i (TAlive s iv d)) (m_ver m) nt').
+  ((run' = None /\ (run0 = None \/ exists rid, run0 = Some (i, rid))) \/
+   (run' = run0 /\ forall rid, run0 <> Some (i, rid))) ->
+  (forall k, eff (mk_world (w_now w) (S (w_next w)) sched' ready' (w_canc w) nt' (upd (w_tm w) i t) (w_scr w) (w_bind w) (w_nver w) (w_pool w)) k
+             = eff w k) ->
+  GInv res run'
+    (mk_world (w_now w) (S (w_next w)) sched' ready' (w_canc w) nt' (upd (w_tm w) i t) (w_scr w) (w_bind w) (w_nver w) (w_pool w))
+    (mk_mstate (m_clock m) (option_map fst run') (upd (m_st m) i (TAlive s iv d)) (m_ver m) nt').
 Proof.
-  intros Hres H HP Hr1 Hr2 Hid Htg Hwh Hdel Hst Hiv Hiv0 Hd Hint Hnt Hno Hrun. ginv H.
+  intros Hres H HP Hr1 Hr2 Hid Htg Hwh Hdel Hst Hiv Hiv0 Hd Hint Hnt Hno Hrun Hfn. ginv H.
   assert (HIn : forall h, In h (sched' ++ ready') -> h = hn \/ In h (handles w)).
   { intros h Hh. pose proof (Permutation_in _ HP Hh) as [E|E]; auto. }
   assert (HIn' : forall h, In h (handles w) -> In h (sched' ++ ready')).
@@ -308,6 +338,7 @@ Proof.
   - intros h Hh. destruct (HIn h Hh) as [->|Ho]; [lia|]. specialize (Hids h Ho). lia.
   - apply (Permutation_NoDup (Permutation_sym (Permutation_map hid HP))). cbn [map]. constructor; [|assumption].
     intros Hc. apply in_map_iff in Hc. destruct Hc as (h & E & Hh). specialize (Hids h Hh). lia.
+  - intros k. rewrite Hver. symmetry. apply Hfn.
   - intros h Hh. destruct (Hr1 h Hh) as [->|Ho]; [apply Hr2; assumption|]. eauto.
   - intros h i0 Hh Ht. destruct (HIn h Hh) as [->|Ho]; [congruence|]. specialize (Htgt h i0 Ho Ht). lia.
   - intros h i0 Hh Ht Hc. destruct (HIn h Hh) as [->|Ho].
@@ -315,15 +346,21 @@ Proof.
     + destruct (Nat.eq_dec i0 i) as [->|Hne].
       * rewrite (Hno h Ho Ht) in Hc. discriminate.
       * rewrite upd_other by assumption. eauto.
-  - intros i0 rid0 E. discriminate.
+  - intros i0 rid0 E. destruct Hrun as [[Hn _] | [Hsame Hne]]; [congruence|].
+    rewrite Hsame in E. destruct (Hrid i0 rid0 E) as (R1 & R2 & R3 & R4).
+    assert (Hi0 : i0 <> i) by (intros ->; eapply Hne; eauto).
+    repeat split; try lia.
+    + intros h Hh. destruct (HIn h Hh) as [->|Ho]; [lia | auto].
+    + intros h Hh Ht. destruct (HIn h Hh) as [->|Ho]; [congruence | auto].
   - intros i0 s0 iv0 d0 Hs. destruct (Nat.eq_dec i0 i) as [->|Hne].
     + rewrite upd_same in Hs. inversion Hs; subst s0 iv0 d0. rewrite upd_same.
       repeat split; try assumption. left. exists hn. repeat split; try assumption.
       rewrite Hid. apply Hfresh. lia.
     + rewrite upd_other in Hs by assumption. rewrite upd_other by assumption.
-      destruct (Halive i0 s0 iv0 d0 Hs) as (A & B & C & D & [(h & Hh & E) | (rid0 & E & _)]).
+      destruct (Halive i0 s0 iv0 d0 Hs) as (A & B & C & D & [(h & Hh & E) | (rid0 & E & Ed)]).
       * repeat split; try assumption. left. exists h. split; [apply HIn'; assumption | assumption].
-      * exfalso. destruct Hrun as [Hn | (rid & Hn)]; [congruence|]. apply Hne. congruence.
+      * destruct Hrun as [[_ [Hn | (rid & Hn)]] | [Hsame _]]; [congruence | exfalso; apply Hne; congruence |].
+        repeat split; try assumption. right. exists rid0. rewrite Hsame. auto.
   - intros i0 Hs. destruct (Nat.eq_dec i0 i) as [->|Hne]; [rewrite upd_same in Hs; discriminate|].
     rewrite upd_other in Hs by assumption. rewrite upd_other by assumption. eauto.
   - intros i0 Hi. rewrite upd_other by lia. apply Hnone. lia.
@@ -350,7 +387,7 @@ Qed.
 (* the loop takes a live handle of timer i off the ready queue and enters run: the tick is the one the checker expects *)
 Lemma tick_start res w m h r i :
   GInv res None w m -> w_ready w = h :: r -> w_canc w (hid h) = false -> htgt h = TRun i ->
-  exists m', mon_step false res m (EvTick i (w_now w) (hwhen h) (w_bind w i)) = Some m' /\
+  exists m', mon_step false res m (EvTick i (w_now w) (hwhen h) (eff w i)) = Some m' /\
              GInv res (Some (i, hid h)) (set_ready w r) m'.
 Proof.
   intros H Er Hc Ht.
@@ -389,15 +426,76 @@ Proof.
     + left. exists h0. auto.
 Qed.
 
-(* the body of a callback (clock advance, then .timerc / redefinition / raise) *)
-Lemma action_inv res run w m st w' evs raised :
-  GInv res run w m -> do_action st w = (w', evs, raised) ->
+Lemma eff_create w nx sched' ready' t :
+  t_fn0 t = match w_bind w (w_nt w) with Some v => v | None => O end ->
+  forall k, eff (mk_world (w_now w) nx sched' ready' (w_canc w) (S (w_nt w)) (upd (w_tm w) (w_nt w) t) (w_scr w) (w_bind w) (w_nver w) (w_pool w)) k
+            = eff w k.
+Proof.
+  intros Ht k. unfold eff, fallback. cbn [w_bind w_nt w_tm]. destruct (w_bind w k) eqn:Eb; [reflexivity|].
+  unfold upd. destruct (Nat.eqb k (w_nt w)) eqn:Ek.
+  - apply Nat.eqb_eq in Ek. subst k. rewrite Eb in Ht. rewrite Ht.
+    replace (w_nt w <? S (w_nt w))%nat with true by (symmetry; apply Nat.ltb_lt; lia).
+    replace (w_nt w <? w_nt w)%nat with false by (symmetry; apply Nat.ltb_ge; lia). reflexivity.
+  - apply Nat.eqb_neq in Ek. destruct (k <? w_nt w)%nat eqn:E1.
+    + apply Nat.ltb_lt in E1. replace (k <? S (w_nt w))%nat with true by (symmetry; apply Nat.ltb_lt; lia). reflexivity.
+    + apply Nat.ltb_ge in E1. replace (k <? S (w_nt w))%nat with false by (symmetry; apply Nat.ltb_ge; lia). reflexivity.
+Qed.
+
+(* _call_periodic: the first arming; also from inside the callback of another timer *)
+Lemma create_timer_inv res run cfg iv w m w' evs :
+  0 < res -> 0 <= iv -> GInv res run w m -> create_timer cfg iv w = (w', evs) ->
   exists m', mon_run false res m evs = Some m' /\ GInv res run w' m'.
 Proof.
-  intros H E. unfold do_action in E.
+  intros Hres Hiv H E. unfold create_timer in E.
+  pose proof H as H0. ginv H0.
+  assert (Hno : forall h, In h (handles w) -> htgt h = TRun (w_nt w) -> w_canc w (hid h) = true).
+  { intros h Hh Ht. specialize (Htgt h _ Hh Ht). lia. }
+  assert (Hrun : (run = None /\ (run = None \/ exists rid, run = Some (w_nt w, rid))) \/
+                 (run = run /\ forall rid, run <> Some (w_nt w, rid))).
+  { right. split; [reflexivity|]. intros rid E'. destruct (Hrid _ _ E') as (_ & L & _). lia. }
+  assert (Hs : mon_step false res m (EvCreate (w_nt w) (w_now w) iv) =
+     Some (mk_mstate (w_now w) (m_cur m) (upd (m_st m) (w_nt w) (TAlive (w_now w) iv (w_now w + iv))) (m_ver m) (S (m_count m)))).
+  { cbn [mon_step]. rewrite Hcount, Nat.eqb_refl.
+    replace (m_clock m <=? w_now w) with true by (symmetry; apply Z.leb_le; assumption).
+    replace (0 <=? iv) with true by (symmetry; apply Z.leb_le; assumption). reflexivity. }
+  destruct (iv =? 0) eqn:Eiv.
+  - apply Z.eqb_eq in Eiv. unfold call_soon in E. inversion E; subst w' evs; clear E.
+    cbn [mon_run]. rewrite Hs. eexists. split; [reflexivity|].
+    unfold add_timer. wsimpl. rewrite Hcount.
+    eapply ginv_ext; [eapply (ginv_arm res run run w m (w_sched w) (w_ready w ++ [mk_handle (w_next w) (w_now w) (TRun (w_nt w))]) (w_nt w) _ (S (w_nt w)) (mk_handle (w_next w) (w_now w) (TRun (w_nt w))) (w_now w) iv (w_now w + iv)); try eassumption; try reflexivity | wsimpl; assumption | wsimpl; lia | reflexivity | reflexivity | reflexivity].
+    + rewrite app_assoc. apply Permutation_sym. apply Permutation_cons_append.
+    + intros h Hh. apply in_app_or in Hh. destruct Hh as [Hh|[Hh|[]]]; auto.
+    + intros _. wsimpl. lia.
+    + wsimpl. lia.
+    + intros Hp. lia.
+    + lia.
+    + lia.
+    + apply eff_create. reflexivity.
+  - apply Z.eqb_neq in Eiv. unfold call_at in E. inversion E; subst w' evs; clear E.
+    cbn [mon_run]. rewrite Hs. eexists. split; [reflexivity|].
+    unfold add_timer. wsimpl. rewrite Hcount.
+    set (hn := mk_handle (w_next w) (w_now w + iv) (TRun (w_nt w))).
+    eapply ginv_ext; [eapply (ginv_arm res run run w m (insert_h (c_lifo cfg) hn (w_sched w)) (w_ready w) (w_nt w) _ (S (w_nt w)) hn (w_now w) iv (w_now w + iv)); try eassumption; try reflexivity | wsimpl; assumption | wsimpl; lia | reflexivity | reflexivity | reflexivity].
+    + apply (Permutation_app_tail (w_ready w) (insert_h_perm (c_lifo cfg) hn (w_sched w))).
+    + intros h Hh. right. assumption.
+    + intros Hh. exfalso. specialize (Hids hn). unfold handles in Hids.
+      specialize (Hids (in_or_app _ _ _ (or_intror Hh))). subst hn. cbn [hid] in Hids. lia.
+    + intros _. wsimpl. lia.
+    + lia.
+    + lia.
+    + apply eff_create. reflexivity.
+Qed.
+
+(* the body of a callback (clock advance, then .timerc / redefinition / raise / .timer) *)
+Lemma action_inv res run cfg w m st w' evs raised :
+  0 < res ->
+  GInv res run w m -> do_action cfg st w = (w', evs, raised) ->
+  exists m', mon_run false res m evs = Some m' /\ GInv res run w' m'.
+Proof.
+  intros Hres H E. unfold do_action in E.
   set (w1 := set_now w (w_now w + Z.max 0 (s_dur st))) in *.
   assert (H1 : GInv res run w1 m) by (apply ginv_advance; [assumption | lia]).
-  destruct (s_act st) as [|j|k|].
+  destruct (s_act st) as [|j|k| | |k].
   - inversion E; subst. exists m. split; [reflexivity | assumption].
   - destruct (sys_timerc j w1) as [w2 r] eqn:Et. inversion E; subst w' evs raised; clear E.
     destruct (timerc_inv _ _ _ _ _ _ _ H1 Et) as (m' & Hs & Hg & _).
@@ -407,10 +505,23 @@ Proof.
     eexists. split; [cbn [mon_run mon_step]; reflexivity|].
     apply (ginv_redefine _ _ _ _ k H1).
   - inversion E; subst. exists m. split; [reflexivity | assumption].
+  - destruct (w_pool w1) as [|[iv scr] rest] eqn:Ep.
+    + inversion E; subst. exists m. split; [reflexivity | assumption].
+    + pose proof (ginv_pool _ _ _ _ rest H1) as H2.
+      destruct (iv <? 0) eqn:En.
+      * inversion E; subst. exists m. split; [reflexivity | assumption].
+      * apply Z.ltb_ge in En.
+        match type of E with context [create_timer cfg iv ?w2] => destruct (create_timer cfg iv w2) as [w3 e] eqn:Ec end.
+        inversion E; subst w' evs raised; clear E.
+        eapply create_timer_inv; [exact Hres | exact En | | exact Ec].
+        apply ginv_scr. exact H2.
+  - inversion E; subst w' evs raised; clear E.
+    eexists. split; [cbn [mon_run mon_step]; reflexivity|].
+    apply (ginv_undefine _ _ _ _ k H1).
 Qed.
 
 Definition flags_fixed (fl : flags) : Prop :=
-  f_guard fl = true /\ f_clear fl = true /\ f_mono fl = true /\ f_resolve fl = true.
+  f_guard fl = true /\ f_clear fl = true /\ f_mono fl = true /\ f_truth fl = true /\ f_resolve fl = true.
 
 (* what follows the callback in run: raise / cancelled meanwhile / re-arm / stop *)
 Lemma epilogue_inv res cfg fl i rid st raised w m w' evs :
@@ -418,7 +529,8 @@ Lemma epilogue_inv res cfg fl i rid st raised w m w' evs :
   GInv res (Some (i, rid)) w m -> epilogue fl cfg i st raised w = (w', evs) ->
   exists m', mon_run false res m evs = Some m' /\ GInv res None w' m'.
 Proof.
-  intros Hres (Fg & Fc & Fm & _) H E. unfold epilogue in E. rewrite Fg, Fc in E.
+  intros Hres (Fg & Fc & Fm & Ft & _) H E. unfold epilogue, continue_or_stop in E. rewrite Fg, Fc, Ft in E.
+  set (b := klong_truth (s_ret st)) in *.
   pose proof (g_cur _ _ _ _ H) as Hcu. cbn [option_map fst] in Hcu.
   pose proof (g_clock _ _ _ _ H) as Hclk. apply Z.leb_le in Hclk.
   destruct raised.
@@ -437,7 +549,7 @@ Proof.
       pose proof H as H0. ginv H0.
       destruct (Hrid i rid eq_refl) as (R1 & R2 & R3 & R4).
       destruct (Halive i s iv d Es) as (A1 & A2 & A3 & A4 & _).
-      destruct (s_ret st).
+      destruct b.
       * (* returned true: re-arm *)
         inversion E; subst w' evs; clear E.
         cbn [mon_run mon_step]. rewrite Hcu, Nat.eqb_refl, Hclk, Es. cbn [andb].
@@ -445,25 +557,31 @@ Proof.
         unfold rearm. rewrite A1, A2, Fm.
         destruct (iv =? 0) eqn:Eiv.
         -- apply Z.eqb_eq in Eiv. unfold call_soon, set_tm. wsimpl.
-           eapply ginv_ext; [eapply (ginv_arm res (Some (i, rid)) w m (w_sched w) (w_ready w ++ [mk_handle (w_next w) (w_now w) (TRun i)]) i _ (w_nt w) (mk_handle (w_next w) (w_now w) (TRun i)) s iv (next_due s iv d (w_now w))); try eassumption; try reflexivity | reflexivity | wsimpl; lia | wsimpl; first [assumption | symmetry; assumption] | reflexivity | reflexivity].
+           eapply ginv_ext; [eapply (ginv_arm res (Some (i, rid)) None w m (w_sched w) (w_ready w ++ [mk_handle (w_next w) (w_now w) (TRun i)]) i _ (w_nt w) (mk_handle (w_next w) (w_now w) (TRun i)) s iv (next_due s iv d (w_now w))); try eassumption; try reflexivity | reflexivity | wsimpl; lia | wsimpl; first [assumption | symmetry; assumption] | reflexivity | reflexivity].
            ++ rewrite app_assoc. apply Permutation_sym. apply Permutation_cons_append.
            ++ intros h Hh. apply in_app_or in Hh. destruct Hh as [Hh|[Hh|[]]]; auto.
            ++ intros _. wsimpl. lia.
            ++ wsimpl. unfold next_due. rewrite Eiv. reflexivity.
            ++ lia.
-           ++ right. exists rid. reflexivity.
+           ++ left. split; [reflexivity | right; exists rid; reflexivity].
+           ++ intros k. unfold eff, fallback. cbn [w_bind w_nt w_tm]. destruct (w_bind w k); [reflexivity|].
+              destruct (k <? w_nt w)%nat; [|reflexivity]. unfold upd. destruct (Nat.eqb k i) eqn:Ek; [|reflexivity].
+              apply Nat.eqb_eq in Ek. subst k. reflexivity.
         -- apply Z.eqb_neq in Eiv. assert (Hpos : 0 < iv) by lia.
            unfold call_at, set_tm. wsimpl.
            set (n' := Z.max (t_n (w_tm w i) + 1) ((w_now w - s) / iv + 1)).
            set (hn := mk_handle (w_next w) (s + n' * iv) (TRun i)).
-           eapply ginv_ext; [eapply (ginv_arm res (Some (i, rid)) w m (insert_h (c_lifo cfg) hn (w_sched w)) (w_ready w) i _ (w_nt w) hn s iv (next_due s iv d (w_now w))); try eassumption; try reflexivity | reflexivity | wsimpl; lia | wsimpl; first [assumption | symmetry; assumption] | reflexivity | reflexivity].
+           eapply ginv_ext; [eapply (ginv_arm res (Some (i, rid)) None w m (insert_h (c_lifo cfg) hn (w_sched w)) (w_ready w) i _ (w_nt w) hn s iv (next_due s iv d (w_now w))); try eassumption; try reflexivity | reflexivity | wsimpl; lia | wsimpl; first [assumption | symmetry; assumption] | reflexivity | reflexivity].
            ++ apply (Permutation_app_tail (w_ready w) (insert_h_perm (c_lifo cfg) hn (w_sched w))).
            ++ intros h Hh. right. assumption.
            ++ intros Hh. exfalso. specialize (Hids hn). unfold handles in Hids.
               specialize (Hids (in_or_app _ _ _ (or_intror Hh))). subst hn. cbn [hid] in Hids. lia.
            ++ subst hn. cbn [hwhen]. rewrite (A4 Hpos). rewrite next_due_boundary by assumption. reflexivity.
            ++ intros _. cbn [t_n]. rewrite (A4 Hpos). rewrite next_due_boundary by assumption. reflexivity.
-           ++ right. exists rid. reflexivity.
+           ++ left. split; [reflexivity | right; exists rid; reflexivity].
+           ++ intros k. unfold eff, fallback. cbn [w_bind w_nt w_tm]. destruct (w_bind w k); [reflexivity|].
+              destruct (k <? w_nt w)%nat; [|reflexivity]. unfold upd. destruct (Nat.eqb k i) eqn:Ek; [|reflexivity].
+              apply Nat.eqb_eq in Ek. subst k. reflexivity.
       * (* returned false: handle.cancel() *)
         unfold handler_cancel in E. rewrite Ed in E. cbn [fst] in E. inversion E; subst w' evs; clear E.
         cbn [mon_run mon_step]. rewrite Hcu, Nat.eqb_refl, Hclk, Es. cbn [andb].
@@ -491,15 +609,15 @@ Lemma run_timer_inv res cfg fl w m h r i w' evs :
 Proof.
   intros Hres Hfl H Er Hc Ht E.
   destruct (tick_start _ _ _ _ _ _ H Er Hc Ht) as (m1 & Hs1 & H1).
-  unfold run_timer in E. destruct Hfl as (Fg & Fc & Fm & Fr). rewrite Fr in E.
-  match type of E with context [do_action ?st ?w0] => destruct (do_action st w0) as [[w1 evs1] raised] eqn:Ea end.
+  unfold run_timer in E. destruct Hfl as (Fg & Fc & Fm & Ft & Fr). rewrite Fr in E.
+  match type of E with context [do_action cfg ?st ?w0] => destruct (do_action cfg st w0) as [[w1 evs1] raised] eqn:Ea end.
   match type of E with context [epilogue ?a ?b ?c ?st ?e ?f] => destruct (epilogue a b c st e f) as [w2 eve] eqn:Ee end.
   inversion E; subst w' evs; clear E.
   apply (ginv_scr _ _ _ _ (upd (w_scr (set_ready w r)) i (tl (w_scr (set_ready w r) i)))) in H1.
-  destruct (action_inv _ _ _ _ _ _ _ _ H1 Ea) as (m2 & Hs2 & H2).
-  destruct (epilogue_inv _ _ _ _ _ _ _ _ _ _ _ Hres (conj Fg (conj Fc (conj Fm Fr))) H2 Ee) as (m3 & Hs3 & H3).
+  destruct (action_inv _ _ _ _ _ _ _ _ _ Hres H1 Ea) as (m2 & Hs2 & H2).
+  destruct (epilogue_inv _ _ _ _ _ _ _ _ _ _ _ Hres (conj Fg (conj Fc (conj Fm (conj Ft Fr)))) H2 Ee) as (m3 & Hs3 & H3).
   exists m3. split; [|assumption].
-  cbn [mon_run]. wsimpl. rewrite Hs1. rewrite mon_run_app, Hs2. assumption.
+  change (eff (set_ready w r) i) with (eff w i). cbn [mon_run]. wsimpl. rewrite Hs1. rewrite mon_run_app, Hs2. assumption.
 Qed.
 
 (* the handle sets may shrink by handles that are cancelled or not timer handles, and be rearranged *)
@@ -509,7 +627,7 @@ Lemma ginv_handles res w m sched' ready' :
   NoDup (map hid (sched' ++ ready')) ->
   (forall h i, In h (handles w) -> htgt h = TRun i -> w_canc w (hid h) = false -> In h (sched' ++ ready')) ->
   (forall h, In h ready' -> hwhen h - res < w_now w) ->
-  GInv res None (mk_world (w_now w) (w_next w) sched' ready' (w_canc w) (w_nt w) (w_tm w) (w_scr w) (w_bind w) (w_nver w)) m.
+  GInv res None (mk_world (w_now w) (w_next w) sched' ready' (w_canc w) (w_nt w) (w_tm w) (w_scr w) (w_bind w) (w_nver w) (w_pool w)) m.
 Proof.
   intros H Hsub Hn Hkeep Hr. ginv H. constructor; wsimpl; try assumption; eauto.
   - intros i rid E. discriminate.
@@ -598,7 +716,7 @@ Proof.
   change (w_canc (set_ready w r) (hid h)) with (w_canc w (hid h)) in E.
   destruct (w_canc w (hid h)) eqn:Ec.
   - inversion E; subst w' evs. exists m. split; [reflexivity|]. eapply ginv_pop; eauto.
-  - destruct (htgt h) as [i|j|k] eqn:Et.
+  - destruct (htgt h) as [i|j|k|k] eqn:Et.
     + eapply run_timer_inv; eauto.
     + assert (H1 : GInv res None (set_ready w r) m).
       { eapply ginv_pop; eauto. right. intros i. congruence. }
@@ -611,6 +729,11 @@ Proof.
       inversion E; subst w' evs; clear E.
       eexists. split; [cbn [mon_run mon_step]; reflexivity|].
       apply (ginv_redefine _ _ _ _ k H1).
+    + assert (H1 : GInv res None (set_ready w r) m).
+      { eapply ginv_pop; eauto. right. intros i. congruence. }
+      inversion E; subst w' evs; clear E.
+      eexists. split; [cbn [mon_run mon_step]; reflexivity|].
+      apply (ginv_undefine _ _ _ _ k H1).
 Qed.
 
 Lemma run_ready_inv res cfg fl n : forall w m w' evs,
@@ -711,7 +834,7 @@ Proof.
 Qed.
 
 (* ---- setting an experiment up -------------------------------------------------- *)
-Lemma ginv_world0 res t0 : GInv res None (world0 t0) (mstate0 t0).
+Lemma ginv_world0 res t0 pool : GInv res None (world0 t0 pool) (mstate0 t0).
 Proof.
   constructor; unfold world0, mstate0, handles; cbn; try reflexivity; try lia; try constructor; try (intros; contradiction); try (intros; discriminate); auto.
 Qed.
@@ -747,50 +870,6 @@ Proof.
   apply IH. apply ginv_arm_ext. assumption.
 Qed.
 
-(* _call_periodic: the first arming *)
-Lemma create_timer_inv res cfg iv w m w' evs :
-  0 < res -> 0 <= iv -> GInv res None w m -> create_timer cfg iv w = (w', evs) ->
-  exists m', mon_run false res m evs = Some m' /\ GInv res None w' m'.
-Proof.
-  intros Hres Hiv H E. unfold create_timer in E.
-  pose proof H as H0. ginv H0. cbn [option_map] in Hcur.
-  assert (Hno : forall h, In h (handles w) -> htgt h = TRun (w_nt w) -> w_canc w (hid h) = true).
-  { intros h Hh Ht. specialize (Htgt h _ Hh Ht). lia. }
-  assert (Hstep : forall t st', m_clock m <= t ->
-     mon_step false res m (EvCreate (w_nt w) t iv) =
-     Some (mk_mstate t None (upd (m_st m) (w_nt w) (TAlive t iv (t + iv))) (m_ver m) (S (m_count m))) \/ st' = 0).
-  { intros t st' Ht. left. cbn [mon_step]. rewrite Hcur, Hcount, Nat.eqb_refl.
-    replace (m_clock m <=? t) with true by (symmetry; apply Z.leb_le; assumption).
-    replace (0 <=? iv) with true by (symmetry; apply Z.leb_le; assumption). reflexivity. }
-  destruct (Hstep (w_now w) 1 Hclock) as [Hs|Hs]; [|discriminate]. clear Hstep.
-  destruct (iv =? 0) eqn:Eiv.
-  - apply Z.eqb_eq in Eiv. unfold call_soon in E. inversion E; subst w' evs; clear E.
-    cbn [mon_run]. rewrite Hs. eexists. split; [reflexivity|].
-    unfold add_timer. wsimpl. rewrite Hcount.
-    eapply ginv_ext; [eapply (ginv_arm res None w m (w_sched w) (w_ready w ++ [mk_handle (w_next w) (w_now w) (TRun (w_nt w))]) (w_nt w) _ (S (w_nt w)) (mk_handle (w_next w) (w_now w) (TRun (w_nt w))) (w_now w) iv (w_now w + iv)); try eassumption; try reflexivity | reflexivity | wsimpl; lia | reflexivity | reflexivity | reflexivity].
-    + rewrite app_assoc. apply Permutation_sym. apply Permutation_cons_append.
-    + intros h Hh. apply in_app_or in Hh. destruct Hh as [Hh|[Hh|[]]]; auto.
-    + intros _. wsimpl. lia.
-    + wsimpl. lia.
-    + intros Hp. lia.
-    + lia.
-    + lia.
-    + left. reflexivity.
-  - apply Z.eqb_neq in Eiv. unfold call_at in E. inversion E; subst w' evs; clear E.
-    cbn [mon_run]. rewrite Hs. eexists. split; [reflexivity|].
-    unfold add_timer. wsimpl. rewrite Hcount.
-    set (hn := mk_handle (w_next w) (w_now w + iv) (TRun (w_nt w))).
-    eapply ginv_ext; [eapply (ginv_arm res None w m (insert_h (c_lifo cfg) hn (w_sched w)) (w_ready w) (w_nt w) _ (S (w_nt w)) hn (w_now w) iv (w_now w + iv)); try eassumption; try reflexivity | reflexivity | wsimpl; lia | reflexivity | reflexivity | reflexivity].
-    + apply (Permutation_app_tail (w_ready w) (insert_h_perm (c_lifo cfg) hn (w_sched w))).
-    + intros h Hh. right. assumption.
-    + intros Hh. exfalso. specialize (Hids hn). unfold handles in Hids.
-      specialize (Hids (in_or_app _ _ _ (or_intror Hh))). subst hn. cbn [hid] in Hids. lia.
-    + intros _. wsimpl. lia.
-    + lia.
-    + lia.
-    + left. reflexivity.
-Qed.
-
 Lemma create_all_inv res cfg ts : forall w m w' evs,
   0 < res -> GInv res None w m -> create_all cfg ts w = (w', evs) ->
   exists m', mon_run false res m evs = Some m' /\ GInv res None w' m'.
@@ -806,21 +885,21 @@ Proof.
       destruct (create_all cfg ts w3) as [w4 e2] eqn:E2.
       inversion E; subst w' evs; clear E.
       apply (ginv_scr _ _ _ _ (upd (w_scr w1) (w_nt w1) (ts_script s))) in H1.
-      destruct (create_timer_inv _ _ _ _ _ _ _ Hres En H1 E1) as (m1 & Hs1 & H2).
+      destruct (create_timer_inv _ _ _ _ _ _ _ _ Hres En H1 E1) as (m1 & Hs1 & H2).
       destruct (IH _ _ _ _ Hres H2 E2) as (m2 & Hs2 & H3).
       exists m2. split; [|assumption]. rewrite mon_run_app, Hs1. assumption.
 Qed.
 
 (* ---- the main theorem: every history of the model is accepted by the checker ------ *)
-Theorem simulate_accepted fl cfg t0 xs ts lats fuel :
+Theorem simulate_accepted fl cfg t0 xs ts pool lats fuel :
   flags_fixed fl -> 0 < c_res cfg ->
-  accepted false (c_res cfg) t0 (snd (simulate fl cfg t0 xs ts lats fuel)).
+  accepted false (c_res cfg) t0 (snd (simulate fl cfg t0 xs ts pool lats fuel)).
 Proof.
   intros Hfl Hres. unfold accepted, simulate.
-  destruct (create_all cfg ts (arm_exts cfg xs (world0 t0))) as [w1 e1] eqn:E1.
+  destruct (create_all cfg ts (arm_exts cfg xs (world0 t0 pool))) as [w1 e1] eqn:E1.
   destruct (run_loop fl cfg fuel lats w1) as [w2 e2] eqn:E2.
   cbn [snd].
-  pose proof (arm_exts_inv (c_res cfg) cfg xs _ _ (ginv_world0 (c_res cfg) t0)) as H0.
+  pose proof (arm_exts_inv (c_res cfg) cfg xs _ _ (ginv_world0 (c_res cfg) t0 pool)) as H0.
   destruct (create_all_inv _ _ _ _ _ _ _ Hres H0 E1) as (m1 & Hs1 & H1).
   rewrite mon_run_app, Hs1.
   eapply run_loop_inv; eauto.
@@ -843,7 +922,7 @@ Proof.
   intros [W1 W2] E. destruct e as [i t iv|i t due v|i t o|j t r|k v|]; cbn [mon_step] in E.
   - step_cases E. inversion E; subst m'; clear E. repeat (apply andb_prop in C; destruct C as [C ?]).
     apply Nat.eqb_eq in H0. subst i.
-    split; cbn; [|intros; discriminate]. intros i Hi. unfold upd in Hi. destruct (Nat.eqb i (m_count m)) eqn:Ei.
+    split; cbn; [|intros i0 Hc0; specialize (W2 i0 Hc0); lia]. intros i Hi. unfold upd in Hi. destruct (Nat.eqb i (m_count m)) eqn:Ei.
     + apply Nat.eqb_eq in Ei. lia.
     + specialize (W1 i Hi). lia.
   - destruct (m_cur m) eqn:Ec; [discriminate|]. destruct (m_st m i) as [|s iv d|] eqn:Es; try discriminate.
@@ -946,7 +1025,7 @@ Proof.
   destruct (mon_step strict res m e) as [m1|] eqn:Es; [|discriminate].
   eapply IH; [| intros t o Hin; eapply Hn; right; exact Hin | exact E].
   destruct e as [i0 t iv|i0 t due v|i0 t o|j t r|k v|]; cbn [mon_step] in Es.
-  - rewrite Hc in Es. cbn [is_none] in Es. rewrite andb_false_r in Es. discriminate.
+  - step_cases Es. inversion Es; subst m1. assumption.
   - rewrite Hc in Es. discriminate.
   - rewrite Hc in Es. step_cases Es. apply andb_prop in C. destruct C as [C _]. apply Nat.eqb_eq in C. subst i0.
     exfalso. eapply Hn. left. reflexivity.
@@ -1032,7 +1111,10 @@ Proof.
   intros W H E Hnt. pose proof W as [W1 W2]. destruct p as [|te|].
   - destruct H as (Hc & Hk & Hst).
     destruct e as [i0 t iv0|i0 t due v|i0 t o|j t r|k v|]; cbn [mon_step] in E.
-    + rewrite Hc in E. cbn [is_none] in E. rewrite andb_false_r in E. discriminate.
+    + step_cases E. inversion E; subst m'; clear E. repeat (apply andb_prop in C; destruct C as [C ?]).
+      apply Nat.eqb_eq in H0. subst i0. apply Z.leb_le in C. pose proof (W2 i Hc) as Hlt.
+      exists PhA. split; [|exact I]. unfold holds; cbn [m_cur m_st m_count m_clock].
+      split; [assumption|]. split; [lia|]. rewrite upd_other by lia. assumption.
     + rewrite Hc in E. discriminate.
     + rewrite Hc in E. step_cases E. inversion E; subst m'; clear E.
       apply andb_prop in C. destruct C as [C1 C2]. apply Nat.eqb_eq in C1. subst i0. apply Z.leb_le in C2.
@@ -1054,7 +1136,7 @@ Proof.
     destruct e as [i0 t iv0|i0 t due v|i0 t o|j t r|k v|]; cbn [mon_step] in E.
     + step_cases E. inversion E; subst m'; clear E. repeat (apply andb_prop in C; destruct C as [C ?]).
       apply Nat.eqb_eq in H0. subst i0. exists (PhB te). split; [|reflexivity]. cbn.
-      split; [discriminate|]. split; [lia|]. rewrite upd_other by lia. assumption.
+      split; [assumption|]. split; [lia|]. rewrite upd_other by lia. assumption.
     + destruct (m_cur m) eqn:Ec; [discriminate|]. destruct (m_st m i0) as [|s0 iv1 d0|] eqn:Es; try discriminate.
       step_cases E. inversion E; subst m'; clear E. exists (PhB te). split; [|reflexivity]. cbn.
       split; [|split; assumption]. intros Hx. inversion Hx; subst i0. eapply Hnt. reflexivity.
@@ -1073,7 +1155,7 @@ Proof.
     destruct (stopped_step _ _ _ _ _ _ Hsd E) as (Hsd' & _ & _).
     exists PhD. split; [|exact I]. unfold holds, stopped; cbn [m_cur m_st m_count m_clock]. split; [|assumption].
     destruct e as [i0 t iv0|i0 t due v|i0 t o|j t r|k v|]; cbn [mon_step] in E.
-    + step_cases E. inversion E; subst m'. unfold holds, stopped; cbn [m_cur m_st m_count m_clock]. discriminate.
+    + step_cases E. inversion E; subst m'. unfold holds, stopped; cbn [m_cur m_st m_count m_clock]. assumption.
     + destruct (m_cur m) eqn:Ec; [discriminate|]. destruct (m_st m i0) as [|s0 iv1 d0|] eqn:Es; try discriminate.
       step_cases E. inversion E; subst m'; clear E. unfold holds, stopped; cbn [m_cur m_st m_count m_clock]. intros Hx. inversion Hx; subst i0. eapply Hnt. reflexivity.
     + destruct (m_cur m) as [c|] eqn:Ec; [|discriminate]. step_cases E. inversion E; subst m'. unfold holds, stopped; cbn [m_cur m_st m_count m_clock]. discriminate.
